@@ -1276,9 +1276,18 @@ def offsets_stream(ctx, n):
         got = ([(str(k), int(v)) for k, v in s[0]], int(s[1]))
         ctx.case(nontrivial_key=("offsets", str(order)) if len(offs) > 1 else None)
         if got != (offs, tot):
-            ctx.fail("input", "C12.compute-offsets", witness=dict(order=order), expected=str(got), got=str((offs, tot)),
-                     python=f"from collections import OrderedDict\nfrom funsor.gaussian import _compute_offsets\n"
-                            f"# inputs order {order}\nFAILS = True\n")
+            ctx.fail("input", "C12.compute-offsets", witness=dict(order=[list(map(str, o)) for o in order]),
+                     expected=str(got), got=str((offs, tot)),
+                     python=("from collections import OrderedDict\nfrom funsor.domains import Bint, Real, Reals\n"
+                             "from funsor.gaussian import _compute_offsets\n"
+                             f"order = {[(kind, k, s) for kind, k, s in order]!r}\n"
+                             "inputs = OrderedDict((k, (Reals[s] if s else Real) if kind == 'r' else Bint[s]) "
+                             "for kind, k, s in order)\n"
+                             "offs, tot = _compute_offsets(inputs)\nexp, o = OrderedDict(), 0\n"
+                             "for kind, k, s in order:\n"
+                             "    if kind == 'r':\n        exp[k] = o\n        n = 1\n"
+                             "        for d in s:\n            n *= d\n        o += n\n"
+                             "FAILS = (offs, tot) != (exp, o)\n"))
     ctx.count("offsets-cases", n)
 
 
